@@ -13,7 +13,7 @@ from .ber import Node
 
 MENU = [
     "len+1", "len-1", "len=0", "len-indefinite", "len-84-ffffffff", "len-126-octets", "len-81-form", "len-84-form", "len-85-form", "len-88-form",
-    "class+1", "class-1", "tag=31", "tag=31-dangling", "pc-flip", "empty", "truncate-1", "delete", "duplicate", "append-junk",
+    "class+1", "class-1", "tag=31", "tag=37", "tag=128", "tag=16384", "tag=31-dangling", "pc-flip", "empty", "truncate-1", "delete", "duplicate", "append-junk",
     "stub-1", "stub-2",
 ]  # fmt: skip
 
@@ -65,6 +65,9 @@ def apply(tree: Node, idx: int, label: str) -> t.Optional[bytes]:
         n.cls = (n.cls - 1) % 4
     elif label == "tag=31":
         n.num = 31
+    elif label in ("tag=37", "tag=128", "tag=16384"):
+        # high-tag-number form, 1 / 2 / 3 subsequent octets; in the UNIVERSAL class these are numbers X.680 does not assign
+        n.num = int(label[4:])
     elif label == "tag=31-dangling":
         n.rawident = bytes([(n.cls << 6) | (0x20 if n.constructed else 0) | 31, 0x81])
     elif label == "pc-flip":
